@@ -2,7 +2,7 @@
 """Generate /verif/seeded/RESULTS.md from the meta.json files written by seedtest.py."""
 import glob, json, os
 rows = []
-for d in sorted(x for x in glob.glob("/verif/seeded/C*-m*") if not x.endswith(".first")):
+for d in sorted(x for x in glob.glob("/verif/seeded/C*-*m?*") if not x.endswith(".first")):
     mp = os.path.join(d, "meta.json")
     if not os.path.exists(mp):
         continue
